@@ -14,6 +14,25 @@ func andInOr(p *T, c bool) bool {
 	return (p != nil && c) || p.f == 0 //KNOWN:F104
 }
 
+// the same with a NEGATED compound left operand: the conclusions of the checks inside it are applied as if it had not been
+// negated
+func notAndAnd(p *T, c bool) bool {
+	return !(p != nil && c) && p.f == 0 //KNOWN:F104
+}
+
+func notOrOr(p *T, c bool) bool {
+	return !(p == nil || c) || p.f == 0 //KNOWN:F104
+}
+
+// (with the other outer operator the negated operand happens to be read the right way round)
+func notAndOr(p *T, c bool) bool {
+	return !(p != nil && c) || p.f == 0 //SILENT
+}
+
+func notOrAnd(p *T, c bool) bool {
+	return !(p == nil || c) && p.f == 0 //SILENT
+}
+
 // the references: the same dereference behind the un-nested check is protected, and without any check it is reported
 func plainAnd(p *T) bool {
 	return p != nil && p.f == 0 //SILENT
@@ -33,4 +52,8 @@ func callers() {
 	plainAnd(nil)
 	plainOr(nil)
 	unchecked(nil, true)
+	notAndAnd(nil, true)
+	notOrOr(nil, true)
+	notAndOr(nil, true)
+	notOrAnd(nil, true)
 }
